@@ -500,13 +500,16 @@ def mc_embedded(tier, base):
     """small batch of simulated Monte-Carlo runs with GEOPHIRES as the program: the report each iteration copies from its
     client is compared with the client run of base input + recorded sampled values (C20, Monte-Carlo-embedded clause)"""
     from . import mcsim
-    budget = 12.0 if tier == 'quick' else 120.0
+    budget = 20.0 if tier == 'quick' else 120.0
     b = D.Batch(mcsim, 'C20', tier).open()
     viols = []
     n = compared = 0
     t0 = time.monotonic()
     try:
-        pls = ({'seed': D.run_seed(base, 500000 + i), 'tier': tier, 'force': {'program': 'geo', 'mode': 'strict'}, 'replay_rows': 3}
+        # (every other run: discrete inputs only on one or two simulated workers - the sequence A, B, A of sampled combinations
+        # within one worker is where a report left over from another iteration would be copied)
+        pls = ({'seed': D.run_seed(base, 500000 + i), 'tier': tier, 'replay_rows': 3,
+                'force': dict({'program': 'geo', 'mode': 'strict'}, **({'discrete': True, 'W': 1 + (i // 2) % 2} if i % 2 else {}))}
                for i in range(100000))
         for idx, pl, rec in b.run(pls, 240.0, deadline=t0 + budget):
             if rec.get('harness_error'):
